@@ -393,7 +393,7 @@ func (p *refPeer) recvTransfer(mid string, usize, csize int) error {
 
 func runC05(ctx *Ctx) error {
 	r, res := ctx.Rng, ctx.Res
-	res.Rule = "cases: a real Session (random role, user agent, locator, 0..8 queued messages, answer policy) talks to the reference peer (independent Go implementation written from the protocol text) under random conforming choices: data block sizes 1..256, answer alphabets (+-= / YNL / ynl / R and H), zero-offset accepts (!0, A0), comment and ;PM lines, MOTD, ;FW lists with password hashes, SID feature strings containing B2, early FQ, duplicate MIDs in a block, 1..5 proposals per block. Oracles: the peer's own checks while talking; the Coq Grammar validator (extracted) replaying both recorded streams; the prescribed outcome (who received what, byte-identical; what the library reported sent / rejected / deferred). Non-trivial: at least one message transferred; distinct by scenario."
+	res.Rule = "cases: a real Session (random role, user agent, locator, 0..8 queued messages, answer policy) talks to the reference peer (independent Go implementation written from the protocol text) under random conforming choices: data block sizes 1..256, answer alphabets (+-= / YNL / ynl / R and H), zero-offset accepts (!0, A0), comment and ;PM lines, MOTD (incl. banner lines that start with asterisks), ;FW lists with password hashes, SID feature strings containing B2, early FQ, duplicate MIDs in a block, 1..5 proposals per block. Oracles: the peer's own checks while talking; the Coq Grammar validator (extracted) replaying both recorded streams; the prescribed outcome (who received what, byte-identical; what the library reported sent / rejected / deferred). Non-trivial: at least one message transferred; distinct by scenario."
 	var vlines []string
 	var vcases []interface{}
 	n := ctx.N(150, 2000)
@@ -426,6 +426,11 @@ func runC05(ctx *Ctx) error {
 			policy: map[string]byte{}, received: map[string][]byte{}, answered: map[string]byte{}, libAns: map[string]byte{}}
 		if peer.master && r.Intn(2) == 0 {
 			peer.motd = []string{"Reference peer", "second line of text"}
+			if r.Intn(2) == 0 {
+				// banner lines in the style of RMS gateways: text that starts with asterisks is NOT
+				// an error report while the greeting is read
+				peer.motd = append(peer.motd, []string{"*** MTD Stats Total connects = 2580 Total messages = 3900", "* welcome *", "***", "*** Reference peer ***"}[r.Intn(4)])
+			}
 		}
 		if r.Intn(2) == 0 {
 			peer.fw = []string{"REFPEER"}
